@@ -276,7 +276,7 @@ def _num(cx, tok):
     return t if t is not None else float(tok)
 
 
-def h_export(cx, sps, fmt, ss, spacing=1):
+def h_export(cx, sps, fmt, ss, spacing=1, touched=False):
     ex = geo.M('exchange')
     multi = geo.M('multi')
     objs = []
@@ -295,6 +295,9 @@ def h_export(cx, sps, fmt, ss, spacing=1):
         for o in objs:
             src.add(o)
         src.sample_size_u = src.sample_size_v = ss
+    if touched:
+        for _g in src:
+            break          # a loop over the object was abandoned earlier
     if fmt == 'obj':
         text = ex.export_obj_str(src, vertex_spacing=spacing)
     elif fmt == 'off':
@@ -389,6 +392,7 @@ def instances(tier):
     e2 = e1 + [spec('surface', (1, 2), ((), ()), rational=True)]
     e3 = e2 + [spec('surface', (2, 1), ((), ()), rational=False)]
     for fmt in ('obj', 'off', 'stl'):
+        out.append(inst('export %s 3 surfaces after abandoned loop' % fmt, h_export, timeout=1800, sps=e3, fmt=fmt, ss=2, spacing=1, touched=True))
         for lst, ss, spacing in ((e1, 3, 1), (e2, 3, 2), (e3, 2, 1), (e3, 3, 1)):
             out.append(inst('export %s %d surfaces ss%d spacing%d' % (fmt, len(lst), ss, spacing), h_export, timeout=1800, sps=lst, fmt=fmt, ss=ss, spacing=spacing))
     return out
